@@ -252,6 +252,10 @@ cdef class CellIndexingNNPS(NNPS):
                     )
             current_keys[i] = self._get_key(n, c_x, c_y, c_z, pa_index)
 
+        if indices.length == 0:
+            # nothing to index for an empty array
+            return
+
         sort(current_keys, current_keys + indices.length)
 
         cdef int id_x, id_y, id_z
@@ -341,8 +345,11 @@ cdef class CellIndexingNNPS(NNPS):
         cdef double* xmax = self.xmax.data
         cdef double* xmin = self.xmin.data
 
-        self.J = <u_int> (1 + log2(ceil((xmax[0] - xmin[0])/self.cell_size)))
-        self.K = <u_int> (1 + log2(ceil((xmax[1] - xmin[1])/self.cell_size)))
+        # at least one cell along an axis, also when its extent is zero
+        self.J = <u_int> (1 + log2(fmax(1.0,
+            ceil((xmax[0] - xmin[0])/self.cell_size))))
+        self.K = <u_int> (1 + log2(fmax(1.0,
+            ceil((xmax[1] - xmin[1])/self.cell_size))))
 
         for i in range(self.narrays):
             free(self.keys[i])
@@ -362,7 +369,7 @@ cdef class CellIndexingNNPS(NNPS):
         cdef NNPSParticleArrayWrapper pa_wrapper = self.pa_wrappers[pa_index]
         cdef int num_particles = pa_wrapper.get_number_of_particles()
 
-        self.I[pa_index] = <u_int> (1 + log2(pa_wrapper.get_number_of_particles()))
+        self.I[pa_index] = <u_int> (1 + log2(fmax(1.0, num_particles)))
 
         cdef u_int* current_keys = self.keys[pa_index]
         cdef key_to_idx_t* current_indices = self.key_indices[pa_index]
